@@ -46,7 +46,8 @@ RULE = ("struct: class bodies = items {function, classmethod, staticmethod, prop
         "getattr-with-default the default, copy.copy / copy.deepcopy work. "
         "isub: every chain of <=3 (quick) / <=5 (thorough) levels over {plain, dict attrs, slotted attrs} x defines-hook, "
         "random longer ones. meta: initbuild class chains (C01/C02/C12 space) built with leaf slots on and off x call "
-        "shapes (malformed included) x single-fault positions x operations, incl. the history hash -> copy / deepcopy / pickle -> hash on an instance one of whose "
+        "shapes (malformed included) x single-fault positions x operations x FIELD names (dunder-like `__z__`, underscore-led, machinery-sounding names, renamed "
+        "consistently over the chain; struct fields include `__f__` and `_u`), incl. the history hash -> copy / deepcopy / pickle -> hash on an instance one of whose "
         "fields holds an identity-hashed object, and single-class specifications with getstate_setstate=False (x cache_hash). Non-trivial: struct = a function uses the class, "
         "a base exists or a cached property is read; isub = some level defines the hook; meta = the class has a field; "
         "distinct = distinct JSON case")
@@ -101,7 +102,7 @@ BUDGET_S = {"quick": 26, "thorough": 380}
 PARALLEL = True
 LEVEL_TEXT = "see below"
 
-FIELD_POOL = ["x", "y", "z", "w"]
+FIELD_POOL = ["x", "y", "z", "w", "__f__", "_u"]
 OTHER_KINDS = ["class", "class", "anyeq", "anyeq", "mock_any", "nevereq", "eq_typeerror", "eq_valueerror", "eq_baseexc",
                "eqclass", "value"]
 SLOT_POOL = ["x", "y", "s1", "s2"]
@@ -505,8 +506,37 @@ def gen_ops(rng, h):
             "protocols": rng.choice([[2], [0, 2], [1, 4], [5], [0, 1, 2, 3, 4, 5]])}
 
 
+UNUSUAL_FIELD_NAMES = ["__z__", "__v__", "_q", "__state__", "_slots", "__x_y__"]
+
+
+def rename_fields(h, rng):
+    """FIELD names as a dimension: dunder-like, underscore-led, machinery-sounding names (consistently over the
+    whole chain, so inherited / re-declared fields stay the same fields).  A merely private `__z` is left out: its
+    slot name is mangled by type() and the slotted class cannot be instantiated on any tree."""
+    names = []
+    for c in h["classes"]:
+        for f in c.get("fields", []):
+            if f["name"] not in names and f["name"] not in ("_p", "p"):
+                names.append(f["name"])
+    if not names:
+        return
+    mapping = {}
+    pool = list(UNUSUAL_FIELD_NAMES)
+    rng.shuffle(pool)
+    for old in rng.sample(names, min(len(names), rng.choice([1, 1, 2]))):
+        mapping[old] = pool.pop()
+    for c in h["classes"]:
+        for f in c.get("fields", []):
+            if f["name"] in mapping:
+                f["name"] = mapping[f["name"]]
+                if f.get("conv_prime") in mapping:
+                    f["conv_prime"] = mapping[f["conv_prime"]]
+
+
 def gen_meta(rng, n_faults=2):
     h = ib.gen_hspec(rng)
+    if rng.random() < 0.3:
+        rename_fields(h, rng)
     for c in h["classes"]:
         if c["kind"] == "attrs" and not c.get("cache_hash") and rng.random() < 0.4:
             c["unsafe_hash"] = True
